@@ -21,6 +21,7 @@ import Driver.C20
 import Driver.C08
 import Driver.Dialer
 import Driver.C10
+import Driver.C04
 
 open Corerad
 
@@ -41,7 +42,8 @@ def handlers : List (String × (List String → List String → Option Verdict))
   ("bt", Driver.C20.bt), ("sv", Driver.C20.sv),
   ("shut", Driver.C08.shut),
   ("d10", Driver.Dialer.d10), ("d11", Driver.Dialer.d11), ("rd", Driver.Dialer.rd),
-  ("grp", Driver.C10.grp)
+  ("grp", Driver.C10.grp),
+  ("pth", Driver.C04.pth)
 ]
 
 def runLine (line : String) : String :=
